@@ -1,5 +1,5 @@
 """Property id -> check class; engines; properties not (yet) claimed."""
-from . import e1, e2, e3, e5, e6, e7
+from . import e1, e2, e3, e5, e6, e7, e8
 
 PROPS = {}
 PROPS.update(e1.PROPS)
@@ -8,8 +8,11 @@ PROPS.update(e2.PROPS)
 PROPS.update(e7.PROPS)
 PROPS.update(e5.PROPS)
 PROPS.update(e6.PROPS)
+PROPS.update(e8.PROPS)
 
 ENGINES = [
+    {"name": "E8-magnet", "path": "vh/e8.py", "serves_properties": ["C11"],
+     "kind_free_text": "TLC model checking of MagnetRef (implementation-shaped magnet() vs reference) + TLC trace validation (TraceMagnet.tla) of URIs parsed with urllib"},
     {"name": "E6-histories", "path": "vh/e6.py", "serves_properties": ["C09"],
      "kind_free_text": "TLC model checking of System.tla (Memo cache model); TLC -simulate behaviours replayed in one interpreter vs fresh interpreters; TLC trace validation (TraceCreate.tla: C09 clauses)"},
     {"name": "E5-piece-length", "path": "vh/e5.py", "serves_properties": ["C12"],
